@@ -25,7 +25,7 @@ def make_edits(edits):
     return out
 
 
-def run_edits(data, edits, author="Verifier"):
+def run_edits(data, edits, author="Q7"):
     """-> dict(applied, skipped, err, out_bytes, out_doc)"""
     from adeu.redline.engine import RedlineEngine
 
@@ -45,7 +45,7 @@ def run_edits(data, edits, author="Verifier"):
     return res
 
 
-def run_actions(data, actions, author="Verifier"):
+def run_actions(data, actions, author="Q7"):
     from adeu.models import ReviewAction
     from adeu.redline.engine import RedlineEngine
 
